@@ -144,6 +144,8 @@ package evaluator
 //@   modifies contents(env.store)
 
 //@ func (e *Evaluator) evalUseStmt
+//@   call Eval#0: assert layout-with-the-data-of-the-call: arg1 == iface(node.Program) && arg2 == env
+//@   goal use-without-program-is-error: node.Program == nil ==> isErr(result)
 //@   call newError#*: assert error-carries-the-construct: arg1 == iface(node)
 //@   requires node != nil && WFNode(iface(node)) && env != nil
 //@   use wfUseStmt(node)
@@ -151,6 +153,9 @@ package evaluator
 //@   modifies contents(env.store)
 
 //@ func (e *Evaluator) evalReserveStmt
+//@   call Eval#0: assert block-insert-with-the-data-of-the-call: arg1 == iface(node.Insert.Block) && arg2 == env
+//@   call Eval#1: assert expression-insert-with-the-data-of-the-call: arg1 == node.Insert.Argument && arg2 == env
+//@   goal no-insert-renders-nothing: node.Insert == nil ==> result == iface(NIL)
 //@   call newError#*: assert error-carries-the-insert: arg1 == iface(node.Insert)
 //@   requires node != nil && WFNode(iface(node)) && env != nil
 //@   use wfReserveStmt(node)
@@ -221,6 +226,7 @@ package evaluator
 //@   modifies contents(env.store)
 
 //@ func (e *Evaluator) evalSlotStmt
+//@   call Eval#0: assert slot-body-in-the-component-scope: arg1 == iface(node.Body) && arg2 == env
 //@   requires node != nil && WFNode(iface(node)) && env != nil
 //@   use wfSlotStmt(node)
 //@   ensures result != nil
